@@ -301,7 +301,8 @@ int main(void)
 					n = enc(&est, &to, &from);
 					free(dat);
 				}
-				if (n < 0) enc_line("refused", drv_errname(n));
+				/* which refusal matters here: MissingBuffer invites the caller to grant space and call again */
+				if (n < 0) { char rr[64]; snprintf(rr, sizeof(rr), "refused ret=%s", drv_errname(n)); enc_line(rr, drv_errname(n)); }
 				else enc_line("ok", "?");
 			}
 			else if (!strcmp(op, "check") && drv_nw == 2) {
